@@ -46,7 +46,6 @@ fn digest(b: &[u8]) -> Vec<u8> {
         h2 = (h2 ^ *x as u64).wrapping_mul(0x100000001b3).rotate_left(13);
     }
     let mut v = h.to_be_bytes().to_vec();
-    v.extend_from_slice(&h2.to_be_bytes()[..4]);
     v
 }
 
@@ -197,7 +196,7 @@ fn pick_chars(r: &mut Rng, keys: &[u32], class: &str, n: usize) -> Vec<u32> {
 pub fn run(ctx: &Ctx) {
     let header = "From OxVerif Require Import Base.Util C12.Model.";
     let mut small = Out::new(ctx, header, "case", "case_code");
-    small.shard_size = 12;
+    small.shard_size = 8;
     let mut big = Out::new(ctx, header, "case", "case_code");
     big.shard_size = 2;
     let mut stats: BTreeMap<String, u64> = BTreeMap::new();
@@ -213,7 +212,7 @@ pub fn run(ctx: &Ctx) {
                         eprintln!("wf problems {} {:?}: {:?}", spec, &chars[..chars.len().min(8)], &c.wf_problems[..c.wf_problems.len().min(3)]);
                     }
                 }
-                if c.coq.len() > 9000 {
+                if c.coq.len() > 7000 {
                     big.push(c.coq, js, &label, nt);
                 } else {
                     small.push(c.coq, js, &label, nt);
@@ -263,7 +262,7 @@ pub fn run(ctx: &Ctx) {
                 larges.push((half / 2).min(keys.len()));
             } else if spec.starts_with("file:") {
                 larges.truncate(0);
-                larges.push(300.min(keys.len()));
+                larges.push(150.min(keys.len()));
             }
             for n in larges {
                 let chars = pick_chars(&mut r, &keys, "any", n);
